@@ -453,6 +453,9 @@ func main() {
 					wantLine := lastRejected[k]
 					i, found := byKey[k]
 					switch {
+					case !found && k == "":
+						problems = append(problems, "bad-missing-unparsed")
+						probW = map[string]interface{}{"levels": cb, "batch": b, "name": "(none: the line could not be parsed)", "rejected_line": strconv.Quote(wantLine), "records": len(recs)}
 					case !found:
 						problems = append(problems, "bad-missing")
 						probW = map[string]interface{}{"levels": cb, "batch": b, "name": strconv.Quote(k), "rejected_line": strconv.Quote(wantLine), "records": len(recs)}
